@@ -46,7 +46,10 @@ def is_item_type(ty):
 def contains(v, pfx):
     v0 = strip(v)
     if isinstance(v0, U):
-        return bool(v0.tag) and (v0.tag == pfx or v0.tag.startswith(pfx + '.') or ('(' + pfx) in v0.tag or (',' + pfx) in v0.tag)
+        if not v0.tag:
+            return False
+        t = norm_tag(v0.tag)
+        return t == pfx or t.startswith(pfx + '.') or ('(' + pfx) in v0.tag or (',' + pfx) in v0.tag
     if isinstance(v0, T):
         return any(contains(x, pfx) for x in v0.items)
     if isinstance(v0, A):
@@ -70,7 +73,7 @@ def err_arm_paths(facts, rec, callee_short, line):
     nerr = 0
     bad = 0
     for o in outs:
-        idx = [i for i, e in enumerate(o.events) if e[0] == 'variant' and e[3] == 'Err' and e[1].startswith(site)]
+        idx = [i for i, e in enumerate(o.events) if e[0] == 'variant' and e[3] == 'Err' and norm_tag(e[1]).startswith(site)]
         if not idx:
             continue
         nerr += 1
